@@ -14,9 +14,9 @@ verus! {
 //@include shims/codecs.rs
 //@include shims/k256.rs
 //@include spec/bip32.rs
-pub const HARDENED_KEY_OFFSET: u32 = 0x80000000;
-pub const XPRIV_VERSION_BYTE: u32 = 0x0488ade4;
-pub const XPUB_VERSION_BYTE: u32 = 0x0488b21e;
+//@const HARDENED_KEY_OFFSET @ src/keypair/mod.rs
+//@const XPRIV_VERSION_BYTE @ src/keypair/mod.rs
+//@const XPUB_VERSION_BYTE @ src/keypair/mod.rs
 //@struct Hash @ src/hash/mod.rs clone
 impl Hash {
 //@stub Hash::to_bytes
@@ -43,12 +43,12 @@ impl ExtendedPrivateKey {
 //@fn ExtendedPrivateKey::to_string_impl
 //@fn ExtendedPrivateKey::from_string_impl
 //@fn ExtendedPrivateKey::parse_str_to_idx
-    #[verifier::external_body] pub fn get_private_key(&self) -> (r: PrivateKey) ensures r == self.private_key { unimplemented!() }
-    #[verifier::external_body] pub fn get_public_key(&self) -> (r: PublicKey) ensures r == self.public_key { unimplemented!() }
-    #[verifier::external_body] pub fn get_chain_code(&self) -> (r: Vec<u8>) ensures r@ == self.chain_code@ { unimplemented!() }
-    #[verifier::external_body] pub fn get_depth(&self) -> (r: u8) ensures r == self.depth { unimplemented!() }
-    #[verifier::external_body] pub fn get_index(&self) -> (r: u32) ensures r == self.index { unimplemented!() }
-    #[verifier::external_body] pub fn get_parent_fingerprint(&self) -> (r: Vec<u8>) ensures r@ == self.parent_fingerprint@ { unimplemented!() }
+//@fn ExtendedPrivateKey::get_private_key
+//@fn ExtendedPrivateKey::get_public_key
+//@fn ExtendedPrivateKey::get_chain_code
+//@fn ExtendedPrivateKey::get_depth
+//@fn ExtendedPrivateKey::get_index
+//@fn ExtendedPrivateKey::get_parent_fingerprint
 }
 impl ExtendedPublicKey {
 //@fn ExtendedPublicKey::from_xpriv
